@@ -14,6 +14,7 @@ hashing and write_report is invisible; replayed on every run.
 """
 import json
 import os
+import subprocess
 from concurrent.futures import ThreadPoolExecutor
 
 from .. import core
@@ -47,7 +48,7 @@ def gen_hist(rng, cid):
             "n": rng.choice([None, None, 1, 2]), "format": rng.choice(["text", "json"]), "mlinks": rng.chance(1, 5)}
 
 
-def run_hist(cases, scratch, timeout=1800):
+def run_hist(cases, scratch, timeout=240):
     lines = [json.dumps(c) for c in cases]
     shards = min(core.NCPU, max(1, len(lines) // 4))
     size = (len(lines) + shards - 1) // shards
@@ -55,7 +56,18 @@ def run_hist(cases, scratch, timeout=1800):
 
     def one(args):
         i, part = args
-        return core.run_lines(DDP, part, ["hist", os.path.join(scratch, "s%d" % i)], timeout=timeout)
+        sdir = os.path.join(scratch, "s%d" % i)
+        try:
+            return core.run_lines(DDP, part, ["hist", sdir], timeout=timeout)
+        except subprocess.TimeoutExpired:
+            # a hanging dedupe run (e.g. a command opening a fifo): find the history, one by one
+            out = []
+            for l in part:
+                try:
+                    out += core.run_lines(DDP, [l], ["hist", sdir], timeout=20)
+                except subprocess.TimeoutExpired:
+                    out.append("%d\tHANG\t-" % json.loads(l)["id"])
+            return out
 
     with ThreadPoolExecutor(max_workers=shards) as ex:
         outs = list(ex.map(one, list(enumerate(parts))))
@@ -65,6 +77,9 @@ def run_hist(cases, scratch, timeout=1800):
             f = l.split("\t")
             if len(f) < 3:
                 raise RuntimeError("ddp hist: malformed output: " + l[:300])
+            if f[1] == "HANG":
+                res[int(f[0])] = {"hang": True}
+                continue
             if f[1] == "PRECOND":
                 raise RuntimeError("ddp hist: harness precondition failed for case %s: %s" % (f[0], f[2]))
             res[int(f[0])] = {"hline": f[1], "impl": f[2], "pre": f[3].split(" "), "post": f[4].split(" "),
@@ -121,6 +136,10 @@ def examine(ctx, cases, res, mout, count=True):
     fails = []
     for case in cases:
         r = res[case["id"]]
+        if r.get("hang"):
+            fails.append(("dedupe_run_hangs", {"case": case}, "the dedupe run on this history does not terminate within 20 s "
+                          "(a command blocks, e.g. on a fifo that should have been left out)"))
+            continue
         model = mout[case["id"]]
         bad = oracle(case, r)
         if count:
@@ -150,8 +169,8 @@ def examine(ctx, cases, res, mout, count=True):
 
 def run_both(ctx, cases, model_bin, scratch):
     res = run_hist(cases, scratch)
-    ids = [c["id"] for c in cases]
-    outs = core.run_lines(model_bin, [res[i]["hline"] for i in ids])
+    ids = [c["id"] for c in cases if not res[c["id"]].get("hang")]
+    outs = core.run_lines(model_bin, [res[i]["hline"] for i in ids]) if ids else []
     return res, dict(zip(ids, outs))
 
 
@@ -178,7 +197,7 @@ def report(ctx, fails, model_bin, scratch):
     for kind, rec, text in fails:
         if kind == "corr":
             continue
-        if kind == "changed_between_hashing_and_report_timestamp":
+        if kind in ("changed_between_hashing_and_report_timestamp", "dedupe_run_hangs"):
             ctx.violation({"kind": kind}, text, rec, found_input=True)
             continue
         if kind in seen:
